@@ -75,7 +75,7 @@ def _replay_chunk(edge_ids):
         e = g.edges[ei]
         tr = _tracker(W)
         hist = []
-        for pe in g.path_to(e["_s"]) + pre:
+        for pe in g.path_to(pre[0]["_s"] if pre else e["_s"]) + pre:
             _apply(tr, pe["act"])
             hist.append(pe["act"])
         st, ret = _apply(tr, e["act"])
@@ -112,7 +112,7 @@ def _b1(chk: Check, consts, label):
         raise common.MachineryError("MBT export failed:\n" + res.out[-2000:])
     g = Graph(res.printed())
     _G, _W = g, consts["W"]
-    ids = g.reachable_edges() + g.selfloop_pairs()
+    ids = g.reachable_edges() + g.merge_pairs(40000 if chk.tier == 'quick' else 240000)
     results = common.parallel_map(_replay_chunk, common.chunked(ids, common.NCPU * 4))
     q = sum(r[0] for r in results)
     chk.count(q)
